@@ -212,8 +212,8 @@ Definition resize_with (ins : ht -> bool -> N -> V -> res (N * N * ht)) (t : ht)
     reinsert (fun t' => ins t' check) (init_tab (new_size (ht_size t) op) (ht_resize t)) es).
 
 (* The re-insertions run the full insert function, whose own resize test never fires there
-   (HashTableP.reinsert_no_nested_resize); the nesting is cut at depth one: a resize requested
-   from inside a resize is E_FUEL. *)
+   (HashTableP.a_insert_inner_shape / a_reinsert_shape: the load stays below 75 %); the nesting
+   is cut at depth one: a resize requested from inside a resize is E_FUEL. *)
 Definition insert_inner (t : ht) (check : bool) (h : N) (v : V) : res (N * N * ht) :=
   insert_with (fun _ _ => Err E_FUEL) t check false h v.
 
